@@ -486,9 +486,11 @@ def make_write_data(spec: dict, b: Built, scratch: str):
     if source == 'hdf5':
         import h5py
         path = os.path.join(scratch, w.get('h5name', 'data.h5'))
-        with h5py.File(path, 'w') as f:
+        # (written under another name and moved into place: a file that was at this path before is REPLACED, not overwritten)
+        with h5py.File(path + '.new', 'w') as f:
             for key, arr in items:
                 f.create_dataset(key.lstrip('/'), data=np.ascontiguousarray(arr), dtype=arr.dtype)
+        os.replace(path + '.new', path)
         if w.get('paths_as') == 'Path':
             import pathlib
             return pathlib.Path(path)
